@@ -40,7 +40,7 @@ class DBFSURI:
                 raise NotImplementedError(
                     f"Cannot join path for {self}: {type(seg)}: {seg}"
                 )
-            if s.startswith("."):
+            if s.startswith("./"):
                 s = s[1:]
             if s.startswith("/"):
                 s = s[1:]
